@@ -283,6 +283,26 @@ def handleObj (st : DState) (parts : List String) : Option (DState × String) :=
         some (st, "M=" ++ fl ++ " V=" ++ (match v with | some x => showVal x | none => "-"))
       | none => some (st, "bad-op")
     | _, _, _ => some (st, "bad-op")
+  | ["untrusted", f, aid, tid, hx] =>
+    match parseNat aid, parseNat tid, parseHex hx with
+    | some ai, some ti, some bs =>
+      match st.atlases.lookup ai with
+      | some a =>
+        if bindFails st.types a ti then some (st, "M=err n=0 am=0") else
+        -- lock-step: the unmarshaller may stop the pump before the decoder is finished
+        let (toks, dok, steps, am) := if f == "cbor" then
+            let o := CborDec.decode false (Rd.ofBytes bs); (o.toks, o.res.isOk, o.steps, o.alloc)
+          else
+            let o := JsonDec.decode (Rd.ofBytes bs); (o.toks, o.res.isOk, o.steps, 0)
+        let r := unmV st.types a trLib st.it 100000 ti (zeroVal st.types 64 ti) toks
+        let (cls, n) := match r with
+          | .ok _ _ used => (if dok && used == toks.length then "ok" else if used < toks.length then "err" else "err", if used < toks.length then used + 1 else steps)
+          | .err used => ("err", used + 1)
+          | .panic used => ("panic", used + 1)
+          | .more _ => ("err", steps)
+        some (st, "M=" ++ cls ++ " n=" ++ toString n ++ " am=" ++ toString am)
+      | none => some (st, "bad-op")
+    | _, _, _ => some (st, "bad-op")
   | ["hist", f, script] =>
     -- the model has no per-instance state at all: every call is evaluated on its own
     let fmt : Fmt := if f == "cbor" then .cbor else .json
